@@ -228,9 +228,10 @@ def c14(res: Result):
     q = res.tier == Q
     rng = random.Random(res.seed + 14)
     ops = ["exp", "bfs", "skipmin", "skiprem", "min", "cand", "seeds", "sets", "reclaim"]
-    recs = run_mc(res, "cache", ops, 2, [2], [1000], ["Inv_WF", "Inv_CacheFresh", "Inv_PartialFaithful"], 2)
+    recs = run_mc(res, "cache", ops, 2, [2], [1000], ["Inv_WF", "Inv_CacheFresh", "Inv_PartialFaithful"], 2, properties=["CacheDiscardStep"])
     # block expansion (source shortcut, clean-block verdicts for every allowed oracle answer) followed by queries
-    run_mc(res, "block", ["block", "scc", "seeds", "cand", "sets"], 3, [2], [1000], ["Inv_WF", "Inv_CacheFresh", "Inv_PartialFaithful", "Inv_ASeedsSound", "Inv_Seeds"], None)
+    run_mc(res, "block", ["block", "scc", "seeds", "cand", "sets"], 3, [2], [1000], ["Inv_WF", "Inv_CacheFresh", "Inv_PartialFaithful", "Inv_ASeedsSound", "Inv_Seeds"], None,
+           properties=["CacheDiscardStep"])
     if not q:
         run_mc(res, "scc3", ["exp", "scc", "seeds", "skipmin"], 2, [], [1000], ["Inv_WF", "Inv_CacheFresh", "Inv_PartialFaithful", "Inv_Seeds"], None, netmode="file")
     recs = [r for r in recs if any(h[0] in ("cand", "seeds", "sets") for h in r["hist"][:-1])]
@@ -247,6 +248,8 @@ def c14(res: Result):
                                 [{"op": "seeds", "n": 1}, {"op": "scc", "maa": False}],
                                 [{"op": "seeds", "n": 1}, {"op": "scc", "maa": True}],
                                 [{"op": "seeds", "n": 1}, {"op": "block", "maa": True, "optsrc": True, "exact": False, "size": -1}],
+                                [{"op": "cand", "n": 1, "greedy": True, "sim": True}, {"op": "block", "maa": True, "optsrc": True, "exact": False, "size": -1}, {"op": "cand", "n": 1}],
+                                [{"op": "cand", "n": 1, "greedy": False, "sim": False}, {"op": "scc", "maa": True}, {"op": "cand", "n": 1}],
                                 [{"op": "exp", "n": 1}, {"op": "seeds", "n": 2}, {"op": "seeds", "n": 3}, {"op": "block", "maa": False, "optsrc": True, "exact": False, "size": -1}]])
     tasks += feature_tasks("f", None, rng=rng, hist=(kinds, (3, 7), [], 2 if q else 8))
     # attractor data on unexpanded inner nodes, then a strategy that gives them successors without _expand_one_node
@@ -262,11 +265,11 @@ def c14(res: Result):
         deep = [[{"op": "bfs", "n": 1, "lvl": 1, "size": -1}] + [{"op": rng.choice(["seeds", "sets", "cand"]), "n": k} for k in range(2, 14)] + tail + [{"op": "expseeds"}],
                 [{"op": "exp", "n": 1}, {"op": "exp", "n": 2}] + [{"op": "seeds", "n": k} for k in range(2, 10)] + tail + [{"op": "expseeds"}]]
         tasks += gadget_tasks("gq", deep, only=["nscc_latch", "nscc2"])
-    invs = ["Inv_CacheFresh"]
+    invs = ["Inv_CacheFresh", "Inv_CacheDiscard"]
     res.cov["rule"] = ("Histories interleaving attractor queries (candidates / seeds / sets, also on unexpanded nodes) with every way of giving "
                        "a node successors (single expansion, BFS/DFS, minimal-space with skip_ignored, skip_to_minimal, skip_remaining, block with "
                        "source shortcut, SCC attachment), reclamation and pickling. After every call TLC checks each cached list against the "
-                       "attractors of the node's *current* successors. Non-trivial: distinct histories in which a node with cached data later gets successors.")
+                       "attractors of the node's *current* successors, and that a node that got successors in this call no longer reports a candidate inside one of them. Non-trivial: distinct histories in which a node with cached data later gets successors.")
 
     def nt(tr):
         cached = set()
